@@ -14,7 +14,7 @@
      mime  "param"       a media type with a parameter ("text/plain; charset=utf-8") loses the parameter
      scheme upper-case   refused by the client (the Gemini entry points accept it)                                       *)
 EXTENDS Naturals, TLC
-CONSTANT DevClientEscapes     \* what-if: the client percent-encodes ';' in path and token (then every kind round-trips)
+CONSTANT DevUnescaped         \* deviation (tree before its fix): upload() puts ';' on the wire wherever the caller had one
 Schemes == {"gemini", "titan", "upper", "titanUpper"}
 Paths == {"plain", "semicolon", "encSemicolon", "query", "space", "nonascii", "empty"}
 Tokens == {"none", "plain", "b64", "semicolon", "space", "sizeInside", "nonascii", "pct"}
@@ -26,22 +26,26 @@ VARIABLES scheme, path, token, mime, out
 vars == <<scheme, path, token, mime, out>>
 Pending == [k |-> "pending"]
 Init == scheme \in Schemes /\ path \in Paths /\ token \in Tokens /\ mime \in Mimes /\ out = Pending
+\* after the repair: a ';' inside the URL, the token or the media type is refused by upload() (it would be read as the start of
+\* the next parameter); DevUnescaped is the tree before it
+Semi == path = "semicolon" \/ token \in {"semicolon", "sizeInside", "space"} \/ mime = "param"      \* (or whitespace: "a b")
 Eval == /\ out = Pending
         /\ out' = IF scheme \in {"upper", "titanUpper"} THEN [k |-> "clientRefuses"]
+                  ELSE IF Semi /\ ~DevUnescaped THEN [k |-> "clientRefuses"]
                   ELSE [k |-> "parsed",
-                        path |-> IF path = "semicolon" /\ ~DevClientEscapes THEN "cut" ELSE "same",
-                        token |-> IF token \in {"semicolon", "sizeInside"} /\ ~DevClientEscapes THEN "cut" ELSE "same",
-                        size |-> IF token = "sizeInside" /\ ~DevClientEscapes THEN "overridden" ELSE "same",
+                        path |-> IF path = "semicolon" THEN "cut" ELSE "same",
+                        token |-> IF token \in {"semicolon", "sizeInside"} THEN "cut" ELSE "same",
+                        size |-> IF token = "sizeInside" THEN "overridden" ELSE "same",
                         mime |-> IF mime = "param" THEN "cut" ELSE "same",
-                        content |-> IF token = "sizeInside" /\ ~DevClientEscapes THEN "dropped" ELSE "same"]
+                        content |-> IF token = "sizeInside" THEN "dropped" ELSE "same"]
         /\ UNCHANGED <<scheme, path, token, mime>>
 Spec == Init /\ [][Eval]_vars
 Done == out.k # "pending"
-\* on the safe kinds the server acts on exactly what the caller asked for
-RoundTrip == (Done /\ out.k = "parsed" /\ path \in SafePaths /\ token \in SafeTokens /\ mime \in SafeMimes)
+\* whatever reaches the server is what the caller asked for (C19's last sentence, for uploads)
+RoundTrip == (Done /\ out.k = "parsed")
                 => (out.path = "same" /\ out.token = "same" /\ out.size = "same" /\ out.mime = "same" /\ out.content = "same")
 \* whatever the caller passes, the bytes stored are the caller's bytes or nothing: never other bytes
 ContentNeverMangled == (Done /\ out.k = "parsed") => out.content \in {"same", "dropped"}
 \* the client refuses only what it says it refuses
-RefusesOnlyOddSchemes == (Done /\ out.k = "clientRefuses") => scheme \in {"upper", "titanUpper"}
+RefusesOnlyOddSchemes == (Done /\ out.k = "clientRefuses") => (scheme \in {"upper", "titanUpper"} \/ Semi)
 =============================================================================
